@@ -70,6 +70,9 @@ def run(ctx):
         if "compile_failed" in r:
             rc, err = r["compile_failed"]
             ctx.count("compile_failed")
+            ctx.extra.setdefault("compile_failed_examples", [])
+            if len(ctx.extra["compile_failed_examples"]) < 12:
+                ctx.extra["compile_failed_examples"].append("%s: %s" % (r["id"], (err or "").strip().split("\n")[0][:120]))
             if rc is None:
                 ctx.inconc("compile timeout: %s" % r["id"])
             elif rc < 0 or "panicked" in err:
